@@ -120,3 +120,26 @@ func BadRuneWalk(word string) int {
 	}
 	return n
 }
+
+type lnode struct {
+	labels []byte
+	kids   []*lnode
+}
+
+// BadRuneLookup walks the labels with the runes of the word.
+func (n *lnode) BadRuneLookup(word string) bool {
+	cur := n
+	for _, r := range word {
+		found := false
+		for j, l := range cur.labels {
+			if l == byte(r) {
+				cur, found = cur.kids[j], true
+				break
+			}
+		}
+		if !found {
+			return false
+		}
+	}
+	return true
+}
